@@ -581,7 +581,7 @@ fn vec_model(t: Ty, v: &mut Vec<u64>, op: u64, a: u64, b: u64) -> Option<Vec<Vec
     })
 }
 
-pub fn resolve(l: &Layout, h: &RawHistory) -> Hist {
+pub fn resolve(l: &Layout, h: &RawHistory, dynamic: bool) -> Hist {
     let mut m = initial_model(l);
     let nf = l.fields.len();
     let mut records: Vec<[u64; WORDS]> = vec![];
@@ -645,22 +645,24 @@ pub fn resolve(l: &Layout, h: &RawHistory) -> Hist {
                 let v: &mut Vec<u64> = if let FieldKind::Vec(_) = f { m.vecs.get_mut(&fk).unwrap() } else { m.nested.get_mut(&fk).unwrap().entry(key).or_default() };
                 let len = v.len();
                 let lenu = len as u64;
+                // T3 vectors may grow past 42 elements: that crosses the 1024-byte chunk of the dynamic_storage layout
+                let cap: u64 = if t == Ty::T3 { 47 } else { 24 };
                 let mut a = index(r.ic, r.i, len);
                 let mut b = index(r.jc, r.j, len);
                 match op {
                     0 | 11 => a = r.val,
                     3 | 4 => b = r.val,
                     12 => {
-                        a = a.min(lenu + 6).min(24);
+                        a = if r.ic % 10 == 9 { cap } else { a.min(lenu + 6).min(cap) };
                         b = r.val;
                     }
                     13 => {
-                        a = a.min(lenu + 6).min(14);
+                        a = if r.ic % 10 == 9 { cap } else { a.min(lenu + 6).min(14) };
                         b = r.val;
                     }
                     _ => {}
                 }
-                if v.len() >= 24 && matches!(op, 0 | 4) {
+                if lenu >= cap && matches!(op, 0 | 4) {
                     op = 1;
                 }
                 if !h.allow_revert {
@@ -704,7 +706,13 @@ pub fn resolve(l: &Layout, h: &RawHistory) -> Hist {
                     1 => vec![eopt(mp.get(&key).map(|w| t.enc(*w)))],
                     2 => {
                         removal_seen = true;
-                        vec![ebool(mp.remove(&key).is_some())]
+                        let existed = mp.remove(&key).is_some();
+                        // with experimental dynamic_storage `remove` returns nothing (`remove_existed` returns the bool)
+                        if dynamic {
+                            vec![vec![]]
+                        } else {
+                            vec![ebool(existed)]
+                        }
                     }
                     3 => match mp.get(&key) {
                         Some(old) => vec![e64(0), t.enc(*old)],
@@ -744,7 +752,12 @@ pub fn resolve(l: &Layout, h: &RawHistory) -> Hist {
                     3 => {
                         removal_seen = true;
                         b.clear();
-                        vec![ebool(true)]
+                        // with experimental dynamic_storage `clear` returns nothing
+                        if dynamic {
+                            vec![vec![]]
+                        } else {
+                            vec![ebool(true)]
+                        }
                     }
                     _ => {
                         b.clear();
@@ -812,6 +825,10 @@ pub fn judge(h: &Hist, got: &[Vec<u8>], reverted: bool, end: &str) -> Result<(),
         ));
     }
     let last = h.op_names.last().cloned().unwrap_or_default();
+    if h.reverts && reverted && got.len() == h.expect.len() + 1 {
+        // a revert through `panic <error value>` (the dynamic_storage implementations) logs the error value first
+        return Ok(());
+    }
     if got.len() > h.expect.len() {
         return Err((format!("{last}:{}", if h.reverts { "documented-revert-missing" } else { "extra-result" }), format!("{} results where the model predicts {}; first extra {}", got.len(), h.expect.len(), hex::encode(&got[h.expect.len()]))));
     }
@@ -840,19 +857,34 @@ pub fn package_source(l: &Layout, hists: &[Hist]) -> String {
     src
 }
 
-pub fn eval_pkg(c: &PkgCase) -> PkgEval {
-    let layout = layout_of(&c.layout_sel);
-    let hists: Vec<Hist> = c.histories.iter().map(|h| resolve(&layout, h)).collect();
-    let src = package_source(&layout, &hists);
+/// One workspace = several generated contracts; std is compiled once per workspace build.
+pub fn eval_ws(cases: &[PkgCase], dynamic: bool) -> Vec<PkgEval> {
     let sc = Scratch::new("c28");
-    let dir = forcenv::write_package(&sc.dir, "c28_pkg", PkgKind::Contract, &src);
-    let outcome = match catch(|| forcenv::build_and_run(&dir, false, TestRunnerCount::Manual(2))) {
-        Ok(Ok(mut pkgs)) if pkgs.len() == 1 => Ok(pkgs.remove(0).tests),
-        Ok(Ok(p)) => Err(format!("expected one package, got {}", p.len())),
+    let mut evs = vec![];
+    let mut members = vec![];
+    for (k, c) in cases.iter().enumerate() {
+        let layout = layout_of(&c.layout_sel);
+        let hists: Vec<Hist> = c.histories.iter().map(|h| resolve(&layout, h, dynamic)).collect();
+        let src = package_source(&layout, &hists);
+        let name = format!("c28_pkg{k}");
+        forcenv::write_package(&sc.dir, &name, PkgKind::Contract, &src);
+        members.push(name);
+        evs.push(PkgEval { layout, src, hists, outcome: Err("not run".into()) });
+    }
+    forcenv::write_workspace(&sc.dir, &members);
+    let exp = if dynamic { vec![sway_features::Feature::DynamicStorage] } else { vec![] };
+    let res = match catch(|| forcenv::build_with(&sc.dir, false, exp).and_then(|b| forcenv::run(b.tests()?, TestRunnerCount::Manual(2), None))) {
+        Ok(Ok(pkgs)) => Ok(pkgs),
         Ok(Err(e)) => Err(format!("{e:#}")),
         Err(p) => Err(format!("panic {} {}", p.location, p.message)),
     };
-    PkgEval { layout, src, hists, outcome }
+    for (k, ev) in evs.iter_mut().enumerate() {
+        ev.outcome = match &res {
+            Ok(pkgs) => pkgs.iter().find(|p| p.name == members[k]).map(|p| p.tests.clone()).ok_or_else(|| format!("forc test did not report package {}", members[k])),
+            Err(e) => Err(e.clone()),
+        };
+    }
+    evs
 }
 
 /// first failing history of a package: (index, signature, detail)
@@ -878,38 +910,46 @@ pub fn run(ctx: &Ctx) {
     let ctx = &ctx;
     let rep = Report::new(
         ctx,
-        "proptest package = storage layout (5..11 fields among StorageVec<u64|T3(24 bytes)|u8>, StorageMap<u64, u64|T3>, StorageMap<u64, StorageVec<u64>>, StorageBytes, StorageString, plain u64 / b256 canaries, in \
-         generated order) + 20 histories of 5..48 operations (vec: push pop get set insert remove swap_remove swap first last reverse fill resize store_vec load_vec len is_empty clear iter; map: insert get.try_read \
+        "proptest workspace of 3 packages, each = storage layout (5..11 fields among StorageVec<u64|T3(24 bytes)|u8>, StorageMap<u64, u64|T3>, StorageMap<u64, StorageVec<u64>>, StorageBytes, StorageString, plain u64 / b256 canaries, in \
+         generated order) + 18 histories of 5..48 operations (vec: push pop get set insert remove swap_remove swap first last reverse fill resize store_vec load_vec len is_empty clear iter; map: insert get.try_read \
          remove try_insert get.read; slices: write_slice read_slice len clear; canaries: read write), indices biased to {0, len-1, len, len+1, far}, map keys from a universe of 10 shared by all maps, two thirds of the \
          operations on three focus fields; each history is an array literal run by one #[test] through the contract's interpreter method, built and run by the real forc_test path (fresh deployment per test); oracle: \
          every logged read equals the map / vector / byte-string model, every k operations and at the end ALL fields and ALL keys are dumped and must equal the model (non-interference), a history whose last operation \
          is documented to revert reverts exactly there and every other one does not; non-trivial = the history touches >= 2 fields and a removal (pop remove swap_remove clear shrinking resize/store_vec map remove) \
          is followed by a dump; distinct by hash of (layout, resolved records)",
     );
-    rep.assume("std is built with the default experimental flags (dynamic_storage off): the quad-slot implementations of the storage collections are the ones checked");
+    rep.assume("two thirds of the workspaces are built with the default experimental flags (quad-slot implementations of the storage collections), one third with the experimental feature dynamic_storage (the slot-based implementations in the same files; there StorageMap::remove and StorableSlice::clear return nothing, so only their effect is checked)");
+    rep.assume("a documented revert may be preceded by one log receipt of the reverting operation itself (`panic` logs its error value); revert codes are not compared");
     rep.assume("documented reverting conditions: StorageVec set/remove/swap_remove/swap index out of bounds, insert index > len ('# Reverts' sections), StorageKey::read of a slot holding no value; everything else must not revert");
     rep.assume("the bool returned by StorageBytes/StorageString::clear is only checked after a non-empty write (doc example); for an empty or never written slice the docs are ambiguous ('true if all of the cleared slots were previously set'); the bool returned by StorageKey::clear on a StorageVec is not checked");
-    rep.assume("read_slice returns None for an empty or never written slice (documented in storable_slice.sw); StorageVec length is bounded by 24, slices by 130 bytes, histories by 64 interpreter records");
-    rep.assume("tests run with TestGasLimit::Unlimited; vectors of nested storage types other than StorageMap<u64, StorageVec<u64>> are not generated");
-    let per_pkg = 20usize;
-    let pkgs = ctx.cases(16, 400);
+    rep.assume("read_slice returns None for an empty or never written slice (documented in storable_slice.sw); StorageVec length is bounded by 24 (47 for the 24-byte element type, which crosses a 1024-byte chunk of the dynamic_storage layout), slices by 130 bytes, histories by 64 interpreter records");
+    rep.assume("tests run with a gas limit of 1e9 (a runaway loop ends in an out-of-gas revert); vectors of nested storage types other than StorageMap<u64, StorageVec<u64>> are not generated");
+    let per_pkg = 18usize;
+    let per_ws = 3usize;
+    let workspaces = ctx.cases(6, 150);
+    let mut ctx2 = ctx.clone();
+    ctx2.threads = ctx.threads.min(workspaces as usize).max(1);
+    let ctx = &ctx2;
     crate::spawn_watchdog("C28");
     crate::replay_corpus(&rep, "C28", replay);
     let failures = std::sync::Mutex::new(Vec::<(String, String, Value)>::new());
-    let _ = run_prop(ctx, 28, pkgs, || pkg_strategy(per_pkg), |c| {
+    let _ = run_prop(ctx, 28, workspaces, || (prop::collection::vec(pkg_strategy(per_pkg), per_ws..=per_ws), prop::bool::weighted(0.34)), |(cs, dynamic)| {
         if !failures.lock().unwrap().is_empty() {
             return Ok(());
         }
+        let dynamic = *dynamic;
         crate::in_flight(Some("C28 forc test build+run"));
-        let ev = eval_pkg(c);
+        let evs = eval_ws(cs, dynamic);
         crate::in_flight(None);
+        rep.class(if dynamic { "workspace:experimental-dynamic_storage" } else { "workspace:default-quad-slots" });
+        for (c, ev) in cs.iter().zip(evs.iter()) {
         match &ev.outcome {
             Err(e) => {
                 rep.class("package_build_or_run_failed");
                 rep.inconclusive(&format!("generated contract did not build / run: {}", truncate(e, 300)));
                 let p = scratch_root().join("c28-rejected.sw");
                 let _ = std::fs::write(p, &ev.src);
-                return Ok(());
+                continue;
             }
             Ok(_) => {}
         }
@@ -942,13 +982,15 @@ pub fn run(ctx: &Ctx) {
             let tests = ev.outcome.as_ref().unwrap();
             let t = tests.iter().find(|t| t.name == format!("h{k}"));
             let replay = json!({
-                "layout_sel": c.layout_sel, "layout": lay, "history_index": k,
+                "layout_sel": c.layout_sel, "layout": lay, "history_index": k, "dynamic_storage": dynamic,
                 "records": h.records.iter().map(|r| r.iter().map(|w| w.to_string()).collect::<Vec<_>>()).collect::<Vec<_>>(),
                 "ops": h.rendered, "expected_logs": h.expect.iter().map(hex::encode).collect::<Vec<_>>(), "expected_end": if h.reverts { "revert at the last operation" } else { "return" },
                 "observed_logs": t.map(|t| t.logs.iter().map(hex::encode).collect::<Vec<_>>()), "observed_end": t.map(|t| t.state_str()),
                 "contract": contract_source(&ev.layout), "test": test_fn("h0", &h.records),
             });
+            let sig = if dynamic { format!("dynamic_storage:{sig}") } else { sig };
             failures.lock().unwrap().push((sig, detail, replay));
+        }
         }
         Ok(())
     });
@@ -980,7 +1022,8 @@ pub fn replay(case: &Value) -> Result<(), String> {
     src.push_str(&test_fn("h0", &records));
     let sc = Scratch::new("c28-replay");
     let dir = forcenv::write_package(&sc.dir, "c28_pkg", PkgKind::Contract, &src);
-    let pkgs = forcenv::build_and_run(&dir, false, TestRunnerCount::Manual(1)).map_err(|e| format!("build failed: {e:#}"))?;
+    let exp = if case["dynamic_storage"].as_bool() == Some(true) { vec![sway_features::Feature::DynamicStorage] } else { vec![] };
+    let pkgs = forcenv::build_with(&dir, false, exp).and_then(|b| forcenv::run(b.tests()?, TestRunnerCount::Manual(1), None)).map_err(|e| format!("build failed: {e:#}"))?;
     let t = pkgs.first().and_then(|p| p.tests.first()).ok_or("no test result")?;
     if t.logs != expect {
         return Err(format!("logs differ from the model: observed {:?}", t.logs.iter().map(hex::encode).collect::<Vec<_>>()));
@@ -996,7 +1039,7 @@ pub fn dump(args: &[String]) {
     let seed: u64 = args.first().and_then(|s| s.parse().ok()).unwrap_or(1);
     let c = gen_one(seed, &pkg_strategy(3));
     let layout = layout_of(&c.layout_sel);
-    let hists: Vec<Hist> = c.histories.iter().map(|h| resolve(&layout, h)).collect();
+    let hists: Vec<Hist> = c.histories.iter().map(|h| resolve(&layout, h, false)).collect();
     println!("{}", package_source(&layout, &hists));
     for h in &hists {
         println!("// {:?}", h.rendered);
